@@ -52,6 +52,34 @@ def _types():
     return {'VarInt': (VarInt, 5, 2 ** 32), 'VarLong': (VarLong, 10, 2 ** 64)}
 
 
+def _buffered(data, chunk, bufsize):
+    import io
+
+    class Raw(io.RawIOBase):
+        def __init__(self):
+            self.pos = 0
+
+        def readable(self):
+            return True
+
+        def readinto(self, b):
+            k = min(len(b), max(1, chunk), len(data) - self.pos)
+            b[:k] = data[self.pos:self.pos + k]
+            self.pos += k
+            return k
+
+        def tell(self):
+            return self.pos
+
+    class Buffered(io.BufferedReader):
+        requested = 0
+
+        @property
+        def pos(self):
+            return self.tell()
+    return Buffered(Raw(), buffer_size=max(1, bufsize))
+
+
 def _ctx():
     from minecraft.networking.connection import ConnectionContext
     return ConnectionContext(protocol_version=757)
@@ -63,6 +91,11 @@ def decode_case(ctx, case):
     ctx.ev()
     ref = wire.classify_varint(data, maxb + 1)
     s = CountingStream(data)
+    if case.get('stream'):
+        # "any byte stream": a buffered reader (has peek(), readinto(), ...)
+        # over a raw stream that hands the bytes out in small segments, as
+        # socket.makefile('rb') over a slow peer does
+        s = _buffered(data, *case['stream'])
     # 'via': the entry point packets use - read_with_context on the class or
     # on an instance (None: plain read); the same contract holds for each
     via = case.get('via')
@@ -88,7 +121,7 @@ def decode_case(ctx, case):
     if cont or ref[0] != 'value':
         ctx.nt(tname, data)
     ctx.label('decode_' + ref[0])
-    if s.requested > maxb + 1:
+    if not case.get('stream') and s.requested > maxb + 1:
         ctx.fail('decode', 'R2-bounded-read', case,
                  'requested %d bytes' % s.requested,
                  '<= %d' % (maxb + 1), exc=exc)
@@ -242,6 +275,11 @@ def t_decode_shapes(ctx, lo, hi):
                     data = bytes((0x80 if shape >> i & 1 else 0) | pay
                                  for i in range(length))
                     decode_case(ctx, {'type': tname, 'data': data})
+                    if pay == 0x7F:
+                        decode_case(ctx, {'type': tname, 'data': data +
+                                          b'\x05',
+                                          'stream': [1 + shape % 3,
+                                                     1 + shape % 7]})
                     if pay == 0x01:
                         # the entry points packets use
                         decode_case(ctx, {'type': tname, 'data': data,
@@ -266,6 +304,8 @@ def t_decode_random(ctx, n):
 
     def body(c, x):
         case = {'type': x[0], 'data': x[1]}
+        if len(x[1]) % 4 == 1:
+            case['stream'] = [1 + len(x[1]) % 3, 1 + (x[1][0] % 5)]
         if len(x[1]) % 3 == 0:
             case['via'] = ['ctx_class', 'ctx_instance'][len(x[1]) % 2]
         decode_case(c, case)
